@@ -116,3 +116,37 @@ package querylog
 //@   loop 1 invariant lineBoundary(q.file, start) && lineBoundary(q.file, end)
 //@   loop 1 invariant 0 <= depth && depth < 100 && q.buffer == nil && held(q.lock)
 //@   loop 1 decreases 100 - depth
+
+// ---- C07: search, paging ----
+
+//@ ghost var lastTS int
+//@ ghost var reqLimit int
+
+// Reads and decodes one record (streaming JSON decoder, client lookup): body not verified.  ts is the timestamp of the
+// record processed, recorded in the ghost lastTS.
+//@ func (l *queryLog) readNextEntry(ctx context.Context, r *qLogReader, params *searchParams, cache clientCache) (e *logEntry, ts int64, err error)
+//@   trusted
+//@   modifies *
+//@   ghost at return: lastTS = ts
+
+//@ func (l *queryLog) readEntries(ctx context.Context, r *qLogReader, params *searchParams, cache clientCache, totalLimit int) (entries []*logEntry, oldestNano int64, total int)
+//@   property C07
+//@   modifies *
+//@   ensures bounded: totalLimit > 0 ==> len(entries) <= totalLimit
+//@   ensures cursor: oldestNano == 0 || oldestNano == lastTS
+//@   ghost at return: reqLimit = totalLimit
+//@   loop 1 invariant totalLimit > 0 ==> len(entries) < totalLimit
+//@   loop 1 invariant oldestNano == 0 || oldestNano == lastTS
+
+// Frame assumptions (bodies not verified here): the two searches fill the client cache and do I/O but do not write *params.
+//@ func (l *queryLog) searchMemory(ctx context.Context, params *searchParams, cache clientCache) (entries []*logEntry, total int)
+//@   trusted
+//@   modifies entries(cache), lastTS, reqLimit
+//@ func (l *queryLog) searchFiles(ctx context.Context, params *searchParams, cache clientCache) (entries []*logEntry, oldest time.Time, total int)
+//@   trusted
+//@   modifies entries(cache), lastTS, reqLimit, fpos
+
+//@ func (l *queryLog) search(ctx context.Context, params *searchParams) (entries []*logEntry, oldest time.Time)
+//@   property C07
+//@   modifies *
+//@   ensures page-size: old(params.limit) >= 0 && old(params.offset) >= 0 && old(params.offset) + old(params.limit) <= 4611686018427387904 ==> len(entries) <= old(params.limit)
